@@ -15,9 +15,11 @@ CODES = {
     8: "the stored configuration differs from P' on a launch-relevant field",
     9: "something happened to a name that is in neither project",
     10: "the project-level environment of P' is not applied (relaunch with the old one / no relaunch)",
+    100: "the project-level shell of P' is not applied (process reported as updated but kept with the old executable)",
 }
 # findings that the faithful model contains; reported through known_findings.json (see notes/C14.md)
-KNOWN_KEYS = {5: "over-restart:cosmetic-only-change", 10: "project-environment-not-applied"}
+SHELL_CODE, SHELL_KEY = 100, "project-shell-not-applied"
+KNOWN_KEYS = {5: "over-restart:cosmetic-only-change", 10: "project-environment-not-applied", SHELL_CODE: SHELL_KEY}
 
 
 def harness_run(ctx, binp, args):
@@ -132,10 +134,21 @@ def run(ctx):
                          c["compare"], c.get("fields_differing")))
         reported = True
     # update cases: group by verdict code
+    # F53: an update whose project-level shell differs from the one the supervisor was started with.  UpdateProcess
+    # re-derives executable/args from the start-time shell, finds the process "equal" and keeps the old instance while
+    # the status map says "updated".  Every verdict of such a step goes under the one key SHELL_KEY.
+    def shell_changed(c, stp):
+        st = c["steps"]
+        return stp < len(st) and st[stp]["spec"].get("shell", 0) != st[0]["spec"].get("shell", 0)
     per_code = {}
     for i in bad_mon:
         for (stp, name, code) in findings.get(i, []):
-            per_code.setdefault(code, []).append((i, stp, name))
+            k = SHELL_CODE if shell_changed(cases["run"][i], stp) else code
+            per_code.setdefault(k, []).append((i, stp, name))
+    if ctx.is_known(SHELL_KEY):
+        # the model replaces such a process (its Compare sees the new executable): the disagreement is the finding
+        bad_model = [i for i in bad_model
+                     if not any(shell_changed(cases["run"][i], s) for s in range(len(cases["run"][i]["steps"])))]
     for code in sorted(per_code):
         i, stp, name = per_code[code][0]
         c = cases["run"][i]
